@@ -95,6 +95,45 @@ def run(chk):
     for i in range(0, len(evs), 30):
         chk.judge_with_header(header, evs[i:i + 30])
 
+    # ---- second-order quadruples: need 4 occupied + 4 virtual orbitals -----
+    first = len(chk.events)
+    gm4 = [events.model(ctx0, noa=4, nva=4, seed=sd, fock="diag", bkn=bkn,
+                        oracle="rspt",
+                        gs=oracle.gs_record(names, 2, 4, with_d=False))
+           for sd in ((1,) if quick else (1, 2))]
+    refs4 = [(k + 1, 4, 4) for k in range(len(gm4))]
+    it = avail["t4_2"]
+    for idx in (["ijklabcd"] if quick else ["ijklabcd", "jiklbacd", "klmncdef"]):
+        for full in ((False,) if quick else (False, True)):
+            what = f"Intermediates().t4_2.expand_itmd('{idx}', fully_expand={full})"
+            res, exc = guarded(it.expand_itmd, idx, False, full)
+            chk.count("expansions")
+            if exc:
+                chk.report_direct("itmd:t4_2:exception", f"{what} raised "
+                                  f"{exc['type']}: {exc['msg']}", exc)
+                continue
+            try:
+                ev, ctx = build.valpres(
+                    Expr(it.tensor(idx).sympy, real=True),
+                    Expr(res.sympy, real=True).expand(), op="valpres",
+                    key="itmd:t4_2", what=what, tgt_syms=get_symbols(idx),
+                    names=names, global_models=refs4)
+            except adapter.Unsupported as u:
+                chk.machinery_errors.append(f"{what}: {u}")
+                continue
+            ev["text"]["post"] = ev["text"]["post"][:300]
+            # one slice per value of the first occupied and the first virtual
+            # target index: 16 events that together cover every assignment
+            tsy = get_symbols(idx)
+            i_id, a_id = ctx.index(tsy[0]), ctx.index(tsy[4])
+            for io in range(1, 5):
+                for av in range(5, 9):
+                    chk.add_event(dict(ev, fix=[[i_id, io], [a_id, av]],
+                                       what=what + f" [slice {tsy[0]}={io}, "
+                                                   f"{tsy[4]}={av}]"))
+    if len(chk.events) > first:
+        chk.judge_with_header({"op": "globals", "gm": gm4}, chk.events[first:])
+
     # ---- RE residuals: definition vs. derived residual (generic model) -----
     first = len(chk.events)
     re = GroundState(Operators("re"))
@@ -128,5 +167,6 @@ def run(chk):
              "shifted letters, numbered), once and fully expanded: TLC "
              "evaluates the definition for every index assignment and compares "
              "with the coefficient of the explicit perturbed wavefunction / "
-             "the density block from spec/Rspt.tla; RE residual definitions "
+             "the density block from spec/Rspt.tla (second-order quadruples "
+             "on 4 occupied + 4 virtual orbitals); RE residual definitions "
              "are compared in value with the derived residuals")
